@@ -17,7 +17,8 @@
 (* symmetrises after choosing K upper-triangular cells): 2K non-zero cells.       *)
 (* makerandCIJdegreesfixed(inv, outv): CIJ[source][target], so ROW sums are the   *)
 (* OUT-degrees `outv` and COLUMN sums the IN-degrees `inv`.                        *)
-(* Domains: n <= 16, all values 0/1/2: no 32-bit issue.                           *)
+(* Domains: n <= 16 (set-based definitions), n <= 1024 for the scale-regime records *)
+(* judged by the cheap clauses (counts <= n*n < 2^31); all values 0/1/2.          *)
 EXTENDS BctBase
 
 (* ------------------------------- L1 contracts --------------------------------- *)
@@ -54,6 +55,22 @@ BandsNearestFirst(n, A, K) == NearerBandsFull(n, A, K) /\ NothingBeyondOuterBand
 (* even n and K beyond n(n-2): the antipodal band (n cells, not 2n) is needed     *)
 NeedsAntipodalBand(n, K) == n % 2 = 0 /\ K > n * (n - 2)
 
+(* ---- scale regime (n of several hundred): closed forms of the band capacities.      *)
+(* Cardinality(UpTo(n, r)) enumerates n^2 cells for every r (minutes at n = 400); a     *)
+(* band at offset r < n/2 has 2n cells, the antipodal band of an even n has n, so the   *)
+(* cumulative capacity is 2nr, resp. n(n-1) once r reaches n/2.  Equivalence with the   *)
+(* set-based definitions is ASSUMEd on all n <= 9 in Trace_Generators.                  *)
+(* Domain: n <= 1024 (n * n < 2^31).                                                    *)
+CumCap(n, r) == IF 2 * r >= n - 1 THEN n * (n - 1) ELSE 2 * n * r
+OuterBandF(n, K) ==
+  IF K = 0 THEN 0
+  ELSE MinOf({r \in 1..MaxBand(n) : CumCap(n, r) >= K})
+(* the two band clauses with the outer band handed in                                   *)
+NearerBandsFullAt(n, A, r) ==
+  \A i, j \in 1..n : (i # j /\ Off(n, i, j) < r) => A[i][j] # 0
+NothingBeyondAt(n, A, r) ==
+  \A i, j \in 1..n : (i # j /\ Off(n, i, j) > r) => A[i][j] = 0
+
 DegreesContract(n, A, inv, outv) ==
   /\ Is01(n, A) /\ EmptyDiag(n, A)
   /\ RowSums(n, A) = SeqFn(n, outv)
@@ -64,7 +81,7 @@ Cluster(i, csz) == (i - 1) \div csz
 ClustersFull(n, A, csz) ==
   \A c \in OffDiag(n) : Cluster(c[1], csz) = Cluster(c[2], csz) => A[c[1]][c[2]] # 0
 Pow2(e) == LET f[x \in 0..e] == IF x = 0 THEN 1 ELSE 2 * f[x - 1] IN f[e]
-IsPow2(n) == \E e \in 0..5 : Pow2(e) = n
+IsPow2(n) == \E e \in 0..10 : Pow2(e) = n      \* n <= 1024 (scale-regime records: 256, 512)
 
 (* --------------------------- code orders of cells ----------------------------- *)
 (* np.where(...) and .flat enumerate cells row-major                              *)
@@ -95,6 +112,14 @@ RingResult(n, K, p) ==
   LET r  == OuterBand(n, K)
       bs == BandSeq(n, r)
       ob == Cardinality(UpTo(n, r)) - K
+      gone == {bs[p[t]] : t \in 1..ob}
+  IN Mat(n, LAMBDA i, j : IF i # j /\ Off(n, i, j) <= r /\ <<i, j>> \notin gone THEN 1 ELSE 0)
+
+(* the same with the closed-form outer band (scale regime)                          *)
+RingResultF(n, K, p) ==
+  LET r  == OuterBandF(n, K)
+      bs == BandSeq(n, r)
+      ob == CumCap(n, r) - K
       gone == {bs[p[t]] : t \in 1..ob}
   IN Mat(n, LAMBDA i, j : IF i # j /\ Off(n, i, j) <= r /\ <<i, j>> \notin gone THEN 1 ELSE 0)
 
